@@ -3,7 +3,7 @@
 cd "$(dirname "$0")/.."
 OUT=${BENIGN_OUT:-/tmp/benignruns}
 mkdir -p "$OUT"
-for pair in "B1 C02" "B1 C04" "B1 C06" "B2 C05" "B2 C03" "B3 C08" "B4 C03" "B4 C14" "B5 C10" "B5 C12" "B5 C09" "B6 C17" "B6 C18" "B6 C11" "B7 C19" "B7 C15" "B7 C01" "B7 C03" "B8 C16" "B8 C09" "B8 C11" "B8 C04" "B9 C07" "B10 C02" "B10 C06" "B10 C04" "B11 C16" "B11 C07" "B11 C08" "B11 C12" "B12 C14" "B12 C01" "B12 C18" "B12 C13"; do
+for pair in "B1 C02" "B1 C04" "B1 C06" "B2 C05" "B2 C03" "B3 C08" "B4 C03" "B4 C14" "B5 C10" "B5 C12" "B5 C09" "B6 C17" "B6 C18" "B6 C11" "B7 C19" "B7 C15" "B7 C01" "B7 C03" "B8 C16" "B8 C09" "B8 C11" "B8 C04" "B9 C07" "B10 C02" "B10 C06" "B10 C04" "B11 C16" "B11 C07" "B11 C08" "B11 C12" "B12 C14" "B12 C01" "B12 C18" "B12 C13" "B14 C20"; do
   set -- $pair
   t0=$(date +%s)
   VERIF_EVIDENCE_DIR="$OUT/ev" VERIF_REPLAY_DIR="$OUT/replays" tools/with_patch.sh "benign/$1.diff" ./check "$2" > "$OUT/$1-$2.log" 2>&1
